@@ -178,7 +178,7 @@ def partition(ctx: Ctx, progress: bool = True):
                   why_bad=f"{ {k: v[:90] for k, v in kw.items()} }", construct="add_traversal:shape")
     nt = repo.func(RT, "RouteTraversal.add_link_not_traversed")
     ps = [p for p in flow.paths(nt.node) if p.kind == "return"]
-    ok = len(ps) == 1 and flow.dump(ps[0].value) == f"self._replace(remaining_route=self.remaining_route + ({nt.params[1]},))"
+    ok = flow.values_match(ps, f"self._replace(remaining_route=self.remaining_route + ({nt.params[1]},))")
     ctx.check(ok, "D2", "DU.partition", "add_link_not_traversed appends the untouched link to the remaining route only", nt, why_bad="changed", construct="add_link_not_traversed")
     ntl = repo.func(RT, "RouteTraversal.no_time_left")
     ps = [p for p in flow.paths(ntl.node) if p.kind == "return"]
@@ -283,7 +283,7 @@ def leaving(ctx: Ctx):
         ur = repo.method(sc.cls, "update_route")
         if ur is not None and cname != "ServicingPoolingTrip":
             ps = [p for p in flow.paths(ur.node) if p.kind == "return"]
-            ok = len(ps) == 1 and flow.dump(ps[0].value) == f"replace(self, route={ur.params[1]})"
+            ok = flow.values_match(ps, f"replace(self, route={ur.params[1]})")
             ctx.check(ok, "D1", "DU.move", f"{cname}.update_route stores the given route and nothing else", ur, why_bad="changed", construct=f"{cname}.update_route")
     rules.rule_default_update(ctx, "D4")
 
